@@ -59,11 +59,13 @@ tunnel-group 10.3.3.3 ipsec-attributes
  peer-id-validate nocheck
 `,
 		`access-list crypto-acl%S extended permit ip 10.1.3.0 255.255.255.0 host 10.3.4.5
-crypto ipsec ikev1 transform-set trans%S esp-3des esp-sha-hmac
+crypto ipsec ikev2 ipsec-proposal prop%S
+ protocol esp encryption aes-256
+ protocol esp integrity sha-1
 crypto map map-outside 10 match address crypto-acl%S
 crypto map map-outside 10 set peer 10.3.3.3
 crypto map map-outside 10 set pfs group14
-crypto map map-outside 10 set ikev1 transform-set trans%S
+crypto map map-outside 10 set ikev2 ipsec-proposal prop%S
 crypto map map-outside interface outside
 tunnel-group 10.3.3.3 type ipsec-l2l
 tunnel-group 10.3.3.3 ipsec-attributes
